@@ -408,7 +408,7 @@ impl SubCheck for Streams {
 		"streams"
 	}
 	fn cases(&self, tier: Tier) -> u32 {
-		tier.pick(20_000, 600_000)
+		tier.pick(200_000, 4_000_000)
 	}
 	fn strategy(&self, tier: Tier) -> BoxedStrategy<C05Case> {
 		let max = tier.pick(18usize, 36);
